@@ -3,7 +3,7 @@ from . import common as C, storage_io as S
 
 MODULE = "AcqVerif.Props.C14"
 DRIVERS = ["acq_storage"]
-THEOREMS = []
+THEOREMS = ["AcqVerif.C14.fileWrite_ok", "AcqVerif.C14.C14_contents", "AcqVerif.C14.C14_contents_short_writes", "AcqVerif.C14.C14_grouping", "AcqVerif.C14.C14_uri"]
 ORACLES = {"raw-file-differs", "opened-path-differs"}
 INTERESTING = ("fw.short", "fw.zero", "uri.file", "pkt.2", "pkt.3", "fw.fail", "fw.zero3")
 
